@@ -104,7 +104,9 @@ Theorem C13_copy_none_iff : forall o e inv, copy_from_extent o e inv = CNone <->
 Proof. exact copy_from_extent_none. Qed.
 Print Assumptions C13_copy_none_iff.
 
-Theorem C13_copy_total : forall o e inv m, wf o -> obj_mask o e inv = Ok (Some m) -> exists o', copy_from_extent o e inv = CCopy o'.
+(* (objects without text data: the masked copy of a text array from which nothing is dropped raises in Data.copy) *)
+Theorem C13_copy_total : forall o e inv m, wf o -> no_text (kids o) -> obj_mask o e inv = Ok (Some m) ->
+  exists o', copy_from_extent o e inv = CCopy o'.
 Proof. exact copy_from_extent_total. Qed.
 Print Assumptions C13_copy_total.
 
